@@ -285,6 +285,26 @@ func cloneAt(calls []Call) int {
 				h = (h ^ uint32(c.Val.V[i])) * 16777619
 			}
 		}
+		for _, kv := range c.Tag {
+			for i := 0; i < len(kv.K); i++ {
+				h = (h ^ uint32(kv.K[i])) * 16777619
+			}
+			h = (h ^ uint32(len(kv.V))) * 16777619
+		}
+		for _, it := range c.Items {
+			if it != nil && len(it.Calls) > 0 {
+				f := it.Calls[0]
+				for i := 0; i < len(f.Fn); i++ {
+					h = (h ^ uint32(f.Fn[i])) * 16777619
+				}
+				for _, t := range f.Str {
+					h = (h ^ uint32(len(t))) * 16777619
+					if len(t) > 0 {
+						h = (h ^ uint32(t[0])) * 16777619
+					}
+				}
+			}
+		}
 	}
 	h ^= h >> 15
 	if h%3 != 0 {
